@@ -9,6 +9,9 @@ import ConduitModel.Driver.Egress
 import ConduitModel.Driver.ErrPaths
 import ConduitModel.Driver.Registry
 import ConduitModel.Driver.Codec
+import ConduitModel.Driver.Lifecycle
+import ConduitModel.Driver.ForceStop
+import ConduitModel.Driver.ProcNode
 
 /-
 `driver <component>` : reads cases from stdin (one per line), writes one result line per case.
@@ -45,6 +48,9 @@ def component (name : String) : Option (String → String) :=
   | "hwmconc" => some hwmconcLine
   | "atomicfile" => some atomicfileLine
   | "atomickill" => some atomicfileLine
+  | "lifecycle" => some lifecycleLine
+  | "forcestop" => some forcestopLine
+  | "procnode" => some procnodeLine
   | _ => none
 
 partial def loop (h : IO.FS.Stream) (out : IO.FS.Stream) (f : String → String) : IO Unit := do
